@@ -51,6 +51,8 @@ def plan(num, tier, seed):
         {'oktas': [4, 8], 'msa': ['below'], 'buffer': 10000.0}, {'oktas': [4, 8], 'msa': ['below'], 'buffer': 0.0},
         {'oktas': [0, 0], 'msa': None}, {'oktas': [0], 'msa': ['below'], 'buffer': 0.0},
         {'oktas': [0, 0], 'msa': ['above']},
+        {'oktas': [0], 'msa': ['below'], 'buffer': 0.0, 'o0': 2}, {'oktas': [0, 0], 'msa': ['below'], 'buffer': 100.0, 'o0': 4, 'nce': 2},
+        {'oktas': [1], 'msa': ['below'], 'buffer': 0.0, 'o0': 5}, {'oktas': [1], 'msa': ['below'], 'buffer': 0.0, 'o0': 4},
         {'oktas': [5, 8], 'msa': ['justbelow', 1], 'h0': 1070.0},
         {'oktas': [8], 'msa': ['justbelow', 0], 'h0': 10698.0},
         {'oktas': [3, 6], 'msa': ['tinyabove', 1], 'h0': 1070.0}, {'oktas': [6], 'msa': ['ulpabove', 0], 'h0': 9999.95},
